@@ -642,6 +642,49 @@ static void part_compare(Report& rp, bool quick, int shard, int nshards) {
             }
         }
     }
+    // split of a full border where an 8-byte key and the link of the same slice (tuples (S,8) and (S,9)) meet at every rank,
+    // in both insertion orders, for short and long neighbours
+    if (shard == 2 % nshards) {
+        for (int r = 0; r < 15; ++r) {
+            for (int mode = 0; mode < 4; ++mode) {
+                // mode 0: link present at rank r, insert the 8-byte key; 1: 8-byte key present, insert a longer key (creates the link);
+                // 2/3: the same with 3-byte neighbours instead of 8-byte ones
+                Built b;
+                ykc::sequential_teardown_mode();
+                ykc::reset_library_statics();
+                create_storage(kSt);
+                find_storage(kSt, &b.ti);
+                enter(b.tk);
+                std::vector<std::string> ins;
+                auto nk = [&](int i) {
+                    char buf[16];
+                    if (mode >= 2) snprintf(buf, sizeof(buf), "k%02d", i);
+                    else snprintf(buf, sizeof(buf), "kkkkkk%02d", i);
+                    return std::string(buf);
+                };
+                std::string s8 = nk(r);
+                if (mode >= 2) s8 = s8 + std::string(8 - s8.size(), 'z'); // 8-byte slice sorting right after k<r>
+                std::string longk = s8 + "tail";
+                for (int i = 0; i < 15; ++i) {
+                    if (i == r) ins.push_back((mode % 2) == 0 ? longk : s8);
+                    else ins.push_back(nk(i));
+                }
+                std::string last = (mode % 2) == 0 ? s8 : longk;
+                ins.push_back(last);
+                for (auto& k : ins) {
+                    ykc::t_put(b.tk, b.ti, k, ykc::val_of(k));
+                    b.m[k] = ykc::val_of(k);
+                }
+                rp.evaluations++;
+                rp.nontrivial++;
+                std::string e = ykc::check_tree(b.ti, b.m);
+                if (e.empty()) e = ykc::api_agreement(b.ti, b.m, ins);
+                if (!e.empty()) rp.fail("compare:split_slice_tie", e, "rank" + std::to_string(r) + ";mode" + std::to_string(mode));
+                unbuild(b);
+            }
+        }
+        rp.samples.push_back("split with (S,8)/(S,9) tie at every rank 0..14, both insertion orders, 8-byte and 3-byte neighbours");
+    }
     // split side decisions and scan order through the API: windows of 15 consecutive strings + a 16th key
     {
         std::vector<std::string> strs;
